@@ -288,6 +288,53 @@ func runC03(c *mon.Ctx) {
 		}
 	}
 
+	// A growing log read through a zero-copy HashReader: after every append the tree hash is taken (as a
+	// publisher would) and proofs for the new tree must still be exactly the RFC 6962 ones.
+	if c.Batch%4 == 2 {
+		n := c.Scale(160, 600)
+		hrecs := genRecords(r, n)
+		href := refmerkle.New(hrecs)
+		var hst []tlog.Hash
+		zr := zeroCopyReader(&hst)
+		for i, rec := range hrecs {
+			id := fmt.Sprintf("history:%d", i)
+			hs, err := tlog.StoredHashes(int64(i), rec, zr)
+			if err != nil {
+				c.Violation("storedhashes-error", id, err.Error())
+				break
+			}
+			hst = append(hst, hs...)
+			t := i + 1
+			c.Eval(3)
+			if th, err := tlog.TreeHash(int64(t), zr); err != nil || rH(th) != href.Root(t) {
+				c.Violation("treehash-not-rfc6962", id, map[string]any{"t": t, "reader": "zero-copy", "err": fmt.Sprint(err)})
+				break
+			}
+			bad := false
+			for _, k := range []int{0, i, r.IntN(t)} {
+				p, err := tlog.ProveRecord(int64(t), int64(k), zr)
+				if err != nil || !hashesEqual(p, href.Path(k, t)) {
+					c.Violation("proverecord-not-rfc6962-path", id, map[string]any{"t": t, "n": k, "reader": "zero-copy after a history of appends and tree hashes", "err": fmt.Sprint(err)})
+					bad = true
+				} else if tlog.CheckRecord(p, int64(t), tlog.Hash(href.Root(t)), int64(k), tlog.Hash(refmerkle.Leaf(hrecs[k]))) != nil {
+					c.Violation("honest-record-proof-rejected", id, map[string]any{"t": t, "n": k})
+					bad = true
+				}
+			}
+			for _, m := range []int{1, t, 1 + r.IntN(t)} {
+				p, err := tlog.ProveTree(int64(t), int64(m), zr)
+				if err != nil || !hashesEqual(p, href.Proof(m, t)) {
+					c.Violation("provetree-not-rfc6962-proof", id, map[string]any{"t": t, "n": m, "reader": "zero-copy after a history of appends and tree hashes", "err": fmt.Sprint(err)})
+					bad = true
+				}
+			}
+			if bad {
+				break
+			}
+		}
+		c.Class("history:zero-copy-reader")
+	}
+
 	// Provers must refuse out-of-range arguments with an error, not a crash.
 	if c.Batch == 0 {
 		rd := &storeReader{store: st, limit: -1}
